@@ -34,7 +34,7 @@ impl HashAggExecutor {
                 let states = states
                     .entry(keys)
                     .or_insert_with(|| Evaluator::new(&self.aggs).init_agg_states());
-                Evaluator::new(&self.aggs).agg_list_append(states, args_chunk.row(i).values());
+                Evaluator::new(&self.aggs).agg_list_append(states, args_chunk.row(i).values())?;
             }
         }
 
